@@ -28,7 +28,7 @@ class Contract:
     """
 
     def __init__(self, qual, params, returns=None, requires=None, ensures=None, raises=None, loops=None,
-                 modifies=(), trusted=False, properties=(), note="", decreases=None, locals=None, defaults=None, hints=None, fuel=3):
+                 modifies=(), trusted=False, properties=(), note="", decreases=None, locals=None, defaults=None, hints=None, fuel=3, axioms=()):
         self.qual = qual
         self.params = params
         self.returns = returns
@@ -47,6 +47,7 @@ class Contract:
         # hypotheses of the post obligations; they are listed in the evidence
         self.hints = hints
         self.fuel = fuel  # instantiation rounds for this function's obligations
+        self.axioms = list(axioms)  # definitional axioms used only for this function's obligations
         REGISTRY[qual] = self
 
 
